@@ -181,6 +181,8 @@ type wscenario struct {
 	cancels map[int]context.CancelFunc
 	done    map[int]chan struct{}
 	held    []int
+	// afterNext, when set, runs in the goroutine of the next call right after its WriteMessages returned
+	afterNext func()
 	closed  chan struct{}
 	closing bool
 }
@@ -253,12 +255,26 @@ func (s *wscenario) begin(msgs []wmsg, hold, mayFail bool) int {
 		mf = 1
 	}
 	s.rec.add("cb/%d/%d/%s", c, mf, pl)
+	then := s.afterNext
+	s.afterNext = nil
 	go func() {
 		defer close(d)
 		err := s.w.WriteMessages(ctx, km...)
 		s.rec.add("cr/%d/%s", c, classify(err))
+		if then != nil {
+			then()
+		}
 	}()
 	return c
+}
+
+// waitDone waits for call c to return, at most the watchdog bound (a change that blocks a call must cost seconds).
+func (s *wscenario) waitDone(c int) {
+	select {
+	case <-s.done[c]:
+	case <-time.After(watchdog()):
+		noteStuck()
+	}
 }
 
 // waitEntered waits until call c's first metadata lookup arrived at the fake, or the call returned.
@@ -308,10 +324,12 @@ func (s *wscenario) closeBegin() {
 // probeClosed issues empty WriteMessages calls until one is refused with io.ErrClosedPipe: from then on the
 // writer is known to be marked closed (enter() reads the flag under the mutex Close's critical section holds).
 func (s *wscenario) probeClosed() bool {
-	deadline := time.Now().Add(watchdog())
-	for time.Now().Before(deadline) {
+	// at most 14 probes, 50 µs apart at first, then doubling (≈ 0.4 s in all): the mark is set within microseconds of
+	// Close's start; a writer that still accepts calls after that is not going to refuse them later
+	pause := 50 * time.Microsecond
+	for i := 0; i < 14; i++ {
 		c := s.begin(nil, false, false)
-		<-s.done[c]
+		s.waitDone(c)
 		s.rec.mu.Lock()
 		last := ""
 		for i := len(s.rec.toks) - 1; i >= 0; i-- {
@@ -324,7 +342,8 @@ func (s *wscenario) probeClosed() bool {
 		if strings.HasSuffix(last, "/closed") {
 			return true
 		}
-		time.Sleep(50 * time.Microsecond)
+		time.Sleep(pause)
+		pause *= 2
 	}
 	return false
 }
@@ -358,7 +377,16 @@ func (s *wscenario) finish(base int) (op string, impl string) {
 	sort.Ints(pending)
 	leak := "-"
 	if closeState == "ret" {
-		n := settle(base, time.Second)
+		// a second Close has nothing left to do: it returns (no panic, no wait)
+		again := make(chan struct{})
+		go func() { s.w.Close(); close(again) }()
+		select {
+		case <-again:
+		case <-time.After(watchdog()):
+			noteStuck()
+			s.rec.add("to/0")
+		}
+		n := settle(base, censusBound())
 		s.rec.add("lk/%d", n)
 		leak = strconv.Itoa(n)
 	}
@@ -395,6 +423,16 @@ func steered(kind int, r *rand.Rand, salt uint64) (string, string) {
 	if r.Intn(2) == 0 {
 		cfg.timeout = time.Millisecond
 	}
+	if kind/2 == 4 {
+		cfg.async = true
+	}
+	if kind/2 == 2 {
+		// the call cancelled while it waits for its batch must have no other way out: no timer, batch never full
+		cfg.timeout = time.Hour
+		if cfg.bs < 2 {
+			cfg.bs = 2
+		}
+	}
 	s := newWScenario(cfg, salt)
 	switch kind / 2 {
 	case 0:
@@ -409,7 +447,7 @@ func steered(kind int, r *rand.Rand, salt uint64) (string, string) {
 		// the same with earlier traffic on the same partitions still queued / in flight, and a second late call
 		c0 := s.begin(s.msgs(r, 1+r.Intn(3)), false, false)
 		if !cfg.async && cfg.timeout < time.Hour {
-			<-s.done[c0]
+			s.waitDone(c0)
 		}
 		c1 := s.begin(s.msgs(r, 1+r.Intn(2)), true, false)
 		c2 := s.begin(s.msgs(r, 1+r.Intn(2)), true, false)
@@ -424,7 +462,7 @@ func steered(kind int, r *rand.Rand, salt uint64) (string, string) {
 		c1 := s.begin(s.msgs(r, 1), true, false)
 		s.waitEntered(c1)
 		s.cancel(c1)
-		<-s.done[c1]
+		s.waitDone(c1)
 		if !cfg.async {
 			s2 := s.begin(s.msgs(r, 1), false, false)
 			time.Sleep(time.Millisecond)
@@ -435,14 +473,30 @@ func steered(kind int, r *rand.Rand, salt uint64) (string, string) {
 				s.rec.add("to/%d", s2) // the cancelled call is still blocked
 			}
 		}
+	case 4:
+		// an asynchronous write and, from the same goroutine, Close — on a single P, so that none of the goroutines the
+		// write spawned (partition writer, batch timer) has run when Close reaches its wait: the WaitGroup has to
+		// account for them already
+		old := runtime.GOMAXPROCS(1)
+		s.closing = true
+		s.closed = make(chan struct{})
+		s.afterNext = func() {
+			s.rec.add("xb")
+			s.w.Close()
+			s.rec.add("xr")
+			close(s.closed)
+		}
+		c := s.begin(s.msgs(r, 1+r.Intn(2)), false, false)
+		s.waitDone(c)
+		runtime.GOMAXPROCS(old)
 	case 3:
 		// use after close
 		c := s.begin(s.msgs(r, 2), false, false)
 		_ = c
 		s.closeBegin()
-		<-s.closed
+		<-waitOr(s.closed)
 		c2 := s.begin(s.msgs(r, 1), false, false)
-		<-s.done[c2]
+		s.waitDone(c2)
 	}
 	return s.finish(base)
 }
@@ -502,7 +556,7 @@ func writerPart(seed int64) {
 	}
 	n := 0
 	for rep := 0; rep < reps; rep++ {
-		for kind := 0; kind < 8; kind++ {
+		for kind := 0; kind < 10; kind++ {
 			n++
 			if tooManyStuck() {
 				return
@@ -540,14 +594,19 @@ func emitWriterHooks(n int, evs []kafka.VerifEvent, impl string) {
 	if !strings.Contains(impl, "close=ret") {
 		return
 	}
+	// the hook recorder numbers objects by address; an address can be handed to a later object of the same type once the
+	// earlier one is garbage: the creation event of an object (NewPW, NewBatch) therefore always opens a new identity
 	ids := map[string]map[string]int{"p": {}, "q": {}, "b": {}}
-	id := func(kind, raw string) int {
+	next := map[string]int{}
+	idf := func(kind, raw string, fresh bool) int {
 		m := ids[kind]
-		if _, ok := m[raw]; !ok {
-			m[raw] = len(m) + 1
+		if _, ok := m[raw]; !ok || fresh {
+			next[kind]++
+			m[raw] = next[kind]
 		}
 		return m[raw]
 	}
+	id := func(kind, raw string) int { return idf(kind, raw, false) }
 	var toks []string
 	for _, e := range evs {
 		a := e.Args
@@ -565,9 +624,9 @@ func emitWriterHooks(n int, evs []kafka.VerifEvent, impl string) {
 				toks = append(toks, "L")
 			}
 		case "W.NewPW":
-			toks = append(toks, fmt.Sprintf("P%d:%d", id("p", a[1]), id("q", a[2])))
+			toks = append(toks, fmt.Sprintf("P%d:%d", idf("p", a[1], true), idf("q", a[2], true)))
 		case "PW.NewBatch":
-			toks = append(toks, fmt.Sprintf("N%d", id("b", a[1])))
+			toks = append(toks, fmt.Sprintf("N%d", idf("b", a[1], true)))
 		case "PW.Attempt":
 			toks = append(toks, fmt.Sprintf("A%d", id("b", a[1])))
 		case "B.Completion":
